@@ -5,6 +5,7 @@ package drivers
 // credential class; an impostor plugin announces one certificate and serves with another.
 
 import (
+	"bufio"
 	"context"
 	"crypto/ecdsa"
 	"crypto/elliptic"
@@ -18,8 +19,10 @@ import (
 	"net"
 	"net/rpc"
 	"os"
+	"os/exec"
 	"path/filepath"
 	"strconv"
+	"strings"
 	"testing"
 	"time"
 
@@ -173,7 +176,53 @@ func snapshot(dir string) map[string]bool {
 
 var intruderCreds = []string{"plaintext", "tls_nocert", "tls_selfsigned", "tls_samename_otherkey"}
 
+// runMangledCase: the plugin alone, told to do mutual TLS (PLUGIN_CLIENT_CERT set) but with a host
+// certificate that reached it damaged. Whatever it makes of that, nobody without the launching host's
+// key may be served.
+func runMangledCase(c mtCase, bin, tmp string) map[string]interface{} {
+	out := map[string]interface{}{"setup_ok": false, "legit_ok_before": true, "legit_ok_after": true, "first_use_ok": false}
+	wire, _ := protoSets(c.Proto)
+	pc := &vp.PluginCfg{LegacyVersion: 1, Legacy: &vp.SetCfg{Proto: wire, Tag: "1"}, GRPCServer: wire == "grpc", CookieKey: vp.CookieKey, CookieValue: vp.CookieValue}
+	pcb, _ := json.Marshal(pc)
+	hostPEM, _, _ := vp.StaticTLS()
+	damaged := map[string]string{"firstline": strings.SplitN(hostPEM, "\n", 2)[0], "truncated": hostPEM[:len(hostPEM)/2], "garbage": "not a certificate"}[c.Impostor]
+	cmd := exec.Command(bin)
+	cmd.Env = []string{vp.CfgEnv + "=" + string(pcb), vp.CookieKey + "=" + vp.CookieValue, "PLUGIN_CLIENT_CERT=" + damaged,
+		"PLUGIN_UNIX_SOCKET_DIR=" + tmp, "TMPDIR=" + tmp, "PLUGIN_PROTOCOL_VERSIONS=1"}
+	stdout, _ := cmd.StdoutPipe()
+	if err := cmd.Start(); err != nil {
+		out["err"] = err.Error()
+		return out
+	}
+	defer func() { cmd.Process.Kill(); cmd.Wait() }()
+	lineCh := make(chan string, 1)
+	go func() { l, _ := bufio.NewReader(stdout).ReadString('\n'); lineCh <- l }()
+	var line string
+	select {
+	case line = <-lineCh:
+	case <-time.After(5 * time.Second):
+	}
+	parts := strings.Split(strings.TrimSpace(line), "|")
+	if len(parts) < 5 {
+		// it refused to serve at all: nothing to attack, which is fine
+		out["setup_ok"] = true
+		out["attempts"] = []mtAttempt{}
+		out["refused_to_serve"] = true
+		return out
+	}
+	out["setup_ok"] = true
+	var attempts []mtAttempt
+	for _, cred := range intruderCreds {
+		attempts = append(attempts, intrude(parts[3], wire, "main", cred))
+	}
+	out["attempts"] = attempts
+	return out
+}
+
 func runMTLSCase(c mtCase, bin, tmp string) map[string]interface{} {
+	if c.Kind == "mangled" {
+		return runMangledCase(c, bin, tmp)
+	}
 	out := map[string]interface{}{"setup_ok": false, "legit_ok_before": false, "legit_ok_after": false, "first_use_ok": false}
 	wire, mux := protoSets(c.Proto)
 	pc := &vp.PluginCfg{LegacyVersion: 1, Legacy: &vp.SetCfg{Proto: wire, Tag: "1"}, GRPCServer: wire == "grpc"}
